@@ -363,6 +363,18 @@ def main():
     except ValueError:
         seed = 0
     ctx = Ctx(pid, tier, seed, a.replay)
+    if not os.path.exists(os.path.join(HERE, "props", pid.lower() + ".py")):
+        print("no check for %s" % pid)
+        return 2
+    try:
+        # 1. tables - BEFORE the property module is imported: the generators import /repo's kmip package afresh
+        # (purging sys.modules); a property module imported earlier would keep the purged module objects while
+        # everything imported later gets new ones (two copies of kmip.core.enums in one process)
+        regenerate_tables(ctx)
+    except Exception:
+        traceback.print_exc()
+        print("HARNESS-ERROR (exit 2): the check itself failed; no verdict")
+        return 2
     try:
         mod = importlib.import_module("props." + pid.lower())
     except ImportError:
@@ -371,8 +383,6 @@ def main():
         return 2
 
     try:
-        # 1. tables
-        regenerate_tables(ctx)
         # 2. build
         props_modules = list(getattr(mod, "LEAN_MODULES", ["KmipModel.Props." + pid]))
         build_ok = True
